@@ -50,11 +50,7 @@ func guardRangeObl(P *Program, R *Report, rule, construct, subjName string, subj
 			if !ok || !subj(g.Subject) {
 				return false
 			}
-			if g.Kind == "big" {
-				t, ok := g.exclusiveUpper()
-				return ok && t.equal(upperExcl)
-			}
-			return false
+			return guardUpperIs(g, upperExcl)
 		}}
 	}
 	mpEither(P, R, rule, construct+":lower", fmt.Sprintf("accept => %s >= %s was tested (reject iff below)", subjName, lower), mkLower, parts...)
@@ -101,7 +97,7 @@ func init() {
 					what string
 				}{
 					{"lower", func(g Guard) bool { t, ok := g.inclusiveLower(); return ok && t.equal(tconst(0)) }, "x >= 0"},
-					{"upper", func(g Guard) bool { t, ok := g.exclusiveUpper(); return ok && t.equal(pow2("LmCommit+1")) }, "x < 2^(LmCommit+1)"},
+					{"upper", func(g Guard) bool { return guardUpperIs(g, pow2("LmCommit+1")) }, "x < 2^(LmCommit+1)"},
 				} {
 					side := side
 					fa := &ForAll{P: P, Spec: ForAllSpec{
@@ -109,7 +105,7 @@ func init() {
 						Body: func(fn *ssa.Function, l *Loop) *MustPass {
 							return &MustPass{Match: func(a Atom) bool {
 								g, ok := P.guardOf(a)
-								return ok && g.Kind == "big" && elem(g.Subject) && side.m(g)
+								return ok && (g.Kind == "big" || g.Kind == "bitlen") && elem(g.Subject) && side.m(g)
 							}}
 						}}}
 					var ok bool
@@ -317,4 +313,18 @@ func callersPassLm(P *Program, fn *ssa.Function, argDesc string) (bool, string) 
 		}
 	}
 	return n > 0, fmt.Sprintf("%d callers pass Params.Lm", n)
+}
+
+// guardUpperIs: the guard establishes x < upperExcl (as x.Cmp(t) with the equal term, or as a bit-length
+// test |x| < 2^K with 2^K == upperExcl; the latter bounds only the magnitude, the sign is a separate obligation).
+func guardUpperIs(g Guard, upperExcl Term) bool {
+	switch g.Kind {
+	case "big":
+		t, ok := g.exclusiveUpper()
+		return ok && t.equal(upperExcl)
+	case "bitlen":
+		k, ok := g.bitlenUpper()
+		return ok && termPow2(k).norm().equal(upperExcl.norm())
+	}
+	return false
 }
